@@ -36,7 +36,7 @@ def load_json(path, default):
     return default
 
 
-def finish(root, prop, tier, seed, pres, bres, t0, write_expected=False):
+def finish(root, prop, tier, seed, pres, bres, t0, write_expected=False, rres=None):
     from pyvc import api
     cfg = load_json(os.path.join(root, "properties_cfg.json"), {}).get(prop, {})
     known = load_json(os.path.join(root, "known_findings.json"), {"findings": [], "fixed": []})
@@ -49,7 +49,19 @@ def finish(root, prop, tier, seed, pres, bres, t0, write_expected=False):
     violations = []
     known_hits = []
     undecided = []
-    replays_from_b = (bres or {}).get("replays", {})
+    by_ob = (rres or {}).get("by_obligation", {})
+    rlist = (rres or {}).get("replays", [])
+    confirmed_seen = set()
+
+    def confirmed_replay(cid):
+        for e in by_ob.get(cid, []):
+            if e["status"] == "confirmed":
+                return rlist[e["index"]]
+        return None
+
+    def all_hold(cid):
+        es = by_ob.get(cid, [])
+        return bool(es) and all(e["status"] == "holds" for e in es)
 
     def is_known(key):
         for f in kf:
@@ -66,21 +78,37 @@ def finish(root, prop, tier, seed, pres, bres, t0, write_expected=False):
             continue
         if t["verdict"] == "proved":
             continue
+        rp = confirmed_replay(cid)
+        if rp is not None:
+            # a concrete input on which the REAL function breaks an ensures clause of its contract
+            vid = f"{prop}:{t['function']}:{rp['failed'][0]}"
+            f = is_known(vid) or is_known(cid)
+            if f is not None:
+                known_hits.append((f, vid))
+            elif vid not in confirmed_seen:
+                confirmed_seen.add(vid)
+                violations.append({"id": vid, "source": "prover+replay", "clause": str(rp.get("required")), "function": t["function"],
+                                   "solver_obligation": cid, "solver_verdict": t["verdict"],
+                                   "inputs": rp.get("inputs"), "observed": rp.get("observed"), "witness": rp.get("witness"),
+                                   "model": (t["refuted"][0].get("model", {}) if t["refuted"] else {}),
+                                   "no_failing_input_found": False})
+            continue
         if t["verdict"] == "unknown":
-            undecided.append({"id": cid, "why": "solver returned unknown / timeout"})
+            undecided.append({"id": cid, "why": "solver returned unknown / timeout; no candidate input reproduced a failure on the real code"})
             continue
         f = is_known(cid)
         if f is not None:
             known_hits.append((f, cid))
             continue
-        rp = replays_from_b.get(cid)
-        if rp is not None and rp.get("confirmed") is False:
-            undecided.append({"id": cid, "why": "counter-model does not reproduce on the real code (spurious: contract/encoding too weak)",
-                              "replay": rp})
+        if all_hold(cid):
+            undecided.append({"id": cid, "why": "every counter-model was replayed on the real code and all ensures hold there "
+                                               "(spurious model: a callee contract or the encoding is too weak)"})
             continue
         violations.append({"id": cid, "source": "prover", "clause": t["desc"], "function": t["function"],
                            "model": t["refuted"][0].get("model", {}), "path": t["refuted"][0].get("path"),
-                           "replay": rp, "no_failing_input_found": not (rp and rp.get("confirmed"))})
+                           "witness": t["refuted"][0].get("witness"),
+                           "replay_status": [e["status"] for e in by_ob.get(cid, [])],
+                           "no_failing_input_found": True})
     vacuous_fns = set()
     for u in undecided:
         if "vacuity" in u["why"]:
@@ -119,7 +147,7 @@ def finish(root, prop, tier, seed, pres, bres, t0, write_expected=False):
         rec["property"] = prop
         rec["obligation"] = v["id"]
         rec["rerun"] = f"./check {prop} --replay {path}"
-        if v["source"] == "prover":
+        if v["source"].startswith("prover"):
             rec["solver_output"] = {"verdict": "sat (negated obligation satisfiable)", "model": v.get("model")}
         with open(os.path.join(root, path), "w") as fh:
             json.dump(rec, fh, indent=1, default=str)
